@@ -352,7 +352,9 @@ const dynBase = 100000
 func translate(repo string) (*transOut, error) {
 	exe, _ := os.Executable()
 	bin := filepath.Join(filepath.Dir(exe), "adapterir")
-	if _, err := os.Stat(bin); err != nil {
+	// always rebuilt (the go build cache makes this a no-op when nothing changed): a binary
+	// left in a scratch build directory by an earlier run must not outlive a translator change
+	{
 		// the framework root: VERIF_ROOT, else the nearest ancestor of the binary holding translator/go.mod
 		root := os.Getenv("VERIF_ROOT")
 		for d := filepath.Dir(exe); root == "" && d != "/" && d != "."; d = filepath.Dir(d) {
@@ -363,10 +365,12 @@ func translate(repo string) (*transOut, error) {
 		if err := os.MkdirAll(filepath.Dir(bin), 0o755); err != nil {
 			return nil, err
 		}
-		cmd := exec.Command("go", "build", "-o", bin, "./adapterir")
-		cmd.Dir = filepath.Join(root, "translator")
-		if out, err := cmd.CombinedOutput(); err != nil {
-			return nil, fmt.Errorf("cannot build translator: %v: %s", err, out)
+		if _, err := os.Stat(bin); err != nil || root != "" {
+			cmd := exec.Command("go", "build", "-o", bin, "./adapterir")
+			cmd.Dir = filepath.Join(root, "translator")
+			if out, err := cmd.CombinedOutput(); err != nil {
+				return nil, fmt.Errorf("cannot build translator: %v: %s", err, out)
+			}
 		}
 	}
 	out, err := exec.Command(bin, "-repo", repo, "-json").Output()
